@@ -611,6 +611,7 @@ func (s *Sim) Step() error {
 		s.H.Blocks, s.H.Obs = append(s.H.Blocks, b), append(s.H.Obs, o)
 		return fmt.Errorf("Commit panicked at height %d: %s", h, o.CommitPanic)
 	}
+	o.TreeOps, o.Writes = lastTreeOps, lastWrites
 	o.Frozen = s.node.FrozenStakes()
 	s.H.Blocks, s.H.Obs = append(s.H.Blocks, b), append(s.H.Obs, o)
 	s.sets[h+2] = applyUps(s.sets[h+1], o.ValUpdates)
